@@ -335,8 +335,43 @@ def _rest_body(rep, M, CM, file):
         bad2 += 1
         rep.violation("R2", f"{MOD}.ConnectionManager.{tc.name}", "failure-on-error", f"only {sorted(exc_types - {'CancelledError'})} raised by the factory count as a failed attempt: any other error leaves "
                       "the connect task without failure(), and the next attempt follows immediately (no back-off)", file, tc.node.lineno)
+    # who may call: the strategy counts connection attempts, so nothing but the attempt itself (the connect coroutine and what it calls) reports to it
+    allowed = {tc.name}
+    grow = True
+    while grow:
+        grow = False
+        for nm in list(allowed):
+            f_ = CM.methods.get(nm)
+            for c_ in ast.walk(f_.node) if f_ else []:
+                if isinstance(c_, ast.Call) and isinstance(c_.func, ast.Attribute) and isinstance(c_.func.value, ast.Name) and c_.func.value.id == "self" and c_.func.attr in CM.methods \
+                        and c_.func.attr not in allowed:
+                    allowed.add(c_.func.attr)
+                    grow = True
+    reporters = set()
+    for ck_ in ((MOD, "BackOffStrategy"), (MOD, "ExponentialBackOff")):
+        if ck_ in M.classes:
+            reporters |= {n_ for n_, f_ in M.classes[ck_].methods.items() if f_.kind == "method" and not n_.startswith("_")}
+    n_scanned = 0
+    for nm, f_ in CM.methods.items():
+        if nm in allowed or nm == "__init__":
+            continue
+        n_scanned += 1
+        alias = set()
+        for a_ in ast.walk(f_.node):
+            if isinstance(a_, ast.Assign) and len(a_.targets) == 1 and isinstance(a_.targets[0], ast.Name) and isinstance(a_.value, ast.Attribute) and isinstance(a_.value.value, ast.Name) \
+                    and a_.value.value.id == "self" and a_.value.attr == strat_field:
+                alias.add(a_.targets[0].id)
+        for c_ in ast.walk(f_.node):
+            if isinstance(c_, ast.Call) and isinstance(c_.func, ast.Attribute) and c_.func.attr in reporters:
+                r_ = c_.func.value
+                hit = (isinstance(r_, ast.Attribute) and isinstance(r_.value, ast.Name) and r_.value.id == "self" and r_.attr == strat_field) or (isinstance(r_, ast.Name) and r_.id in alias)
+                if hit:
+                    bad2 += 1
+                    rep.violation("R2", f"{MOD}.ConnectionManager.{nm}", f"reports-outside-attempt:{c_.func.attr}", f"{c_.func.attr}() of the connect back-off strategy is called outside the connection attempt: the delay is "
+                                  "then no longer a function of the number of consecutive failed attempts since the last successful one", file, c_.lineno)
     if n_conn and not bad2:
         rep.ok("R2", f"{tc.name}: {n_conn} connecting paths", "reset() exactly once after a successful factory call and nowhere else; failure() exactly once on its Exception path; nothing on cancellation")
+        rep.ok("R2", f"who may call ({n_scanned} other methods of the manager)", f"none of them calls {sorted(reporters)} of the strategy")
     if n_conn and not bad3:
         rep.ok("R3", "sleep before connect", f"on all {n_conn} connecting paths a positive back-off is slept (await sleep(value)) before the factory is called")
     rep.count("connect_paths", n_conn)
